@@ -309,6 +309,13 @@ def m1_cmdseq(ctx: Any, prog: Program) -> None:
                 flds_ = [f_ for f_, a_ in arg_field if isinstance(a_, ast.Name) and a_.id == none_arm[0].targets[0].id]
                 if flds_:
                     opt_slots.append((params.index(n.test.id), flds_[0]))
+    for n in ast.walk(cp):       # conditional-expression spelling: `ensure = strip_cstring(ensure_file) if ensure_check else None` (also directly as ctor argument)
+        if isinstance(n, ast.IfExp) and isinstance(n.test, ast.Name) and n.test.id in params and isinstance(n.orelse, ast.Constant) and n.orelse.value is None:
+            par_n = mod.parents.get(n)
+            tgt_ = par_n.targets[0] if isinstance(par_n, ast.Assign) else getattr(par_n, 'target', None) if isinstance(par_n, ast.AnnAssign) else None
+            flds_ = [f_ for f_, a_ in arg_field if (isinstance(tgt_, ast.Name) and isinstance(a_, ast.Name) and a_.id == tgt_.id) or a_ is n]
+            if flds_:
+                opt_slots.append((params.index(n.test.id), flds_[0]))
     ctx.shape('C20.M1', len(opt_slots) == 1, mod, cp, 'Command.parse has one flag-controlled optional field (`if ensure_check: ... else: ensure = None`)', func='Command.parse', text='cmdseq optional field flag')
     for si_, fld_ in opt_slots:
         a = args[si_]
@@ -353,6 +360,28 @@ def m1_cmdseq(ctx: Any, prog: Program) -> None:
                 flag_expr = defs_[0].value
             else:
                 flag_expr = None
+            if flag_expr is None and len(defs_) == 0:
+                # `flag, text = _helper(cmd.<field>)`: decide inside the helper, its parameter standing for the field
+                tup_ = [x for x in ast.walk(wf) if isinstance(x, ast.Assign) and isinstance(x.targets[0], ast.Tuple) and any(isinstance(e_, ast.Name) and e_.id == a.id for e_ in x.targets[0].elts)
+                        and isinstance(x.value, ast.Call) and isinstance(x.value.func, ast.Name) and mod.has_func(x.value.func.id) and len(x.value.args) == 1 and dotted(x.value.args[0]) == f'cmd.{fld_}']
+                if len(tup_) == 1:
+                    k_ = [i_ for i_, e_ in enumerate(tup_[0].targets[0].elts) if isinstance(e_, ast.Name) and e_.id == a.id][0]
+                    hf_ = mod.func(tup_[0].value.func.id)
+                    prm_h = hf_.args.args[0].arg
+                    rets_ = [r_ for r_ in walk_no_nested(hf_) if isinstance(r_, ast.Return)]
+                    if rets_ and all(isinstance(r_.value, ast.Tuple) and k_ < len(r_.value.elts) and isinstance(r_.value.elts[k_], ast.Constant) for r_ in rets_):
+                        ifs_h = {id(mod.parents.get(r_)): mod.parents.get(r_) for r_ in rets_}
+                        if len(ifs_h) == 1 and isinstance(list(ifs_h.values())[0], ast.If):
+                            if_h = list(ifs_h.values())[0]
+                            t_h = if_h.test
+                            if isinstance(t_h, ast.Compare) and len(t_h.ops) == 1 and isinstance(t_h.ops[0], (ast.Is, ast.IsNot)) and isinstance(t_h.left, ast.Name) and t_h.left.id == prm_h \
+                                    and isinstance(t_h.comparators[0], ast.Constant) and t_h.comparators[0].value is None:
+                                present_arm = if_h.body if isinstance(t_h.ops[0], ast.IsNot) else if_h.orelse
+                                polarity_ok = all(bool(r_.value.elts[k_].value) == any(r_ is y for y in present_arm) for r_ in rets_)
+                                ctx.check('C20.M1', polarity_ok, mod, a, f'slot {si_}: the presence flag of Command.{fld_} is set in the arm where the field is None', func='write', text='cmdseq optional field flag polarity')
+                                flag_expr = ast.Compare(left=ast.Attribute(value=ast.Name(id='cmd', ctx=ast.Load()), attr=fld_, ctx=ast.Load()), ops=[ast.IsNot()], comparators=[ast.Constant(value=None)])
+                            elif any(isinstance(x, ast.Name) and x.id == prm_h for x in ast.walk(t_h)):
+                                flag_expr = ast.Call(func=ast.Name(id='bool', ctx=ast.Load()), args=[ast.Attribute(value=ast.Name(id='cmd', ctx=ast.Load()), attr=fld_, ctx=ast.Load())], keywords=[])
         kind_ = classify(flag_expr) if flag_expr is not None else 'unknown'
         ctx.shape('C20.M1', kind_ != 'unknown', mod, a, f'slot {si_}: how the presence flag `{ast.unparse(a)[:40]}` of Command.{fld_} is computed was not recognised', func='write', text='cmdseq optional field flag')
         if kind_ != 'unknown':
@@ -701,18 +730,50 @@ def m1_m4_scenes_image(ctx: Any, prog: Program) -> None:
     ok = "binformat.read_offset_array(file, string_count, 'latin1')" in ps and "deferred.set_data('pool_offsets', binformat.write_array('<i', offsets))" in ss and "file.write(string.encode(encoding) + b'\\x00')" in ss
     ctx.shape('C20.M1', ok, mod, sf, 'string pool: offset array then NUL-terminated strings', func='save_scenes_image_sync', text='scenes.image string pool')
     # ---- M4
-    sort = [n for n in walk_no_nested(sf) if isinstance(n, ast.Expr) and isinstance(n.value, ast.Call) and dotted(n.value.func) == 'scene_list.sort']
-    table = [n for n in walk_no_nested(sf) if isinstance(n, ast.For) and "struct.pack('<I', entry.checksum)" in ast.unparse(n)]
-    if len(table) != 1:
+    # (structural: the list is whatever the checksum-table loop iterates, the loop variable whatever it binds)
+    def packs_checksum(loop: ast.For) -> bool:
+        return isinstance(loop.target, ast.Name) and any(
+            isinstance(c, ast.Call) and dotted(c.func) == 'struct.pack' and len(c.args) == 2 and isinstance(c.args[0], ast.Constant) and expand(str(c.args[0].value)) == 'I'
+            and isinstance(c.args[1], ast.Attribute) and c.args[1].attr == 'checksum' and dotted(c.args[1].value) == loop.target.id for st in loop.body for c in ast.walk(st))
+    table = [n for n in walk_no_nested(sf) if isinstance(n, ast.For) and packs_checksum(n)]
+    if len(table) != 1 or not dotted(table[0].iter):
         raise AnalysisError('scenes.image entry table loop not found')
-    ok = len(sort) == 1 and 'entry.checksum' in ast.unparse(sort[0]) and sort[0].lineno < table[0].lineno
-    ctx.check('C20.M4', ok, mod, sort[0] if sort else sf, 'the entry list must be sorted by checksum before the table is written (the game binary-searches it)', func='save_scenes_image_sync', text='sorted before table')
-    muts = [n for n in walk_no_nested(sf) if isinstance(n, ast.Call) and isinstance(n.func, ast.Attribute) and dotted(n.func.value) == 'scene_list' and n.func.attr in ('append', 'extend', 'insert', 'reverse', 'pop', 'remove')
-            and sort and n.lineno > sort[0].lineno]
-    reassign = [n for n in walk_no_nested(sf) if isinstance(n, ast.Assign) and dotted(n.targets[0]) == 'scene_list' and sort and n.lineno > sort[0].lineno]
-    ctx.check('C20.M4', not muts and not reassign, mod, (muts + reassign)[0] if muts or reassign else sf, 'scene_list is changed again after sorting', func='save_scenes_image_sync', text='no mutation after sort')
-    ok = dotted(table[0].iter) == 'scene_list' and all(dotted(n.iter) == 'scene_list' for n in walk_no_nested(sf) if isinstance(n, ast.For) and 'entry.checksum' in ast.unparse(n) and n.lineno > (sort[0].lineno if sort else 0))
-    ctx.check('C20.M4', ok, mod, table[0], 'table, summaries and data iterate the same sorted list', func='save_scenes_image_sync', text='one list for table, summaries, data')
+    lst = dotted(table[0].iter)
+
+    def sort_key_kind(call: ast.Call) -> str:
+        kw = {k.arg: k.value for k in call.keywords}
+        if 'reverse' in kw and not (isinstance(kw['reverse'], ast.Constant) and kw['reverse'].value is False):
+            return 'descending'
+        k = kw.get('key')
+        if k is None:
+            return 'no key'
+        if isinstance(k, ast.Lambda) and len(k.args.args) == 1:
+            b_ = k.body
+            if isinstance(b_, ast.Attribute) and isinstance(b_.value, ast.Name) and b_.value.id == k.args.args[0].arg:
+                return 'checksum' if b_.attr == 'checksum' else f'attribute {b_.attr}'
+            return 'unknown'
+        if isinstance(k, ast.Call) and (dotted(k.func) or '').split('.')[-1] == 'attrgetter' and len(k.args) == 1 and isinstance(k.args[0], ast.Constant):
+            return 'checksum' if k.args[0].value == 'checksum' else f'attribute {k.args[0].value}'
+        return 'unknown'
+    sort = [n for n in walk_no_nested(sf) if (isinstance(n, ast.Expr) and isinstance(n.value, ast.Call) and dotted(n.value.func) == f'{lst}.sort')
+            or (isinstance(n, ast.Assign) and dotted(n.targets[0]) == lst and isinstance(n.value, ast.Call) and dotted(n.value.func) == 'sorted' and n.value.args and dotted(n.value.args[0]) == lst)]
+    sort = [n for n in sort if n.lineno < table[0].lineno]
+    kinds_ = [sort_key_kind(n.value) for n in sort]
+    ctx.shape('C20.M4', 'unknown' not in kinds_, mod, sort[0] if sort else sf, f'sort key of the entry list is a lambda / attrgetter on one attribute', func='save_scenes_image_sync', text='sorted before table')
+    ok = bool(sort) and kinds_[-1] == 'checksum'
+    if 'unknown' not in kinds_:
+        ctx.check('C20.M4', ok, mod, sort[-1] if sort else sf, 'the entry list must be sorted by checksum (ascending) before the table is written - the game binary-searches it'
+                  + (f'; it is sorted by: {kinds_[-1]}' if sort else '; no sort of the list precedes the table loop'), func='save_scenes_image_sync', text='sorted before table')
+    last_sort = sort[-1].lineno if sort else 0
+    muts = [n for n in walk_no_nested(sf) if isinstance(n, ast.Call) and isinstance(n.func, ast.Attribute) and dotted(n.func.value) == lst and n.func.attr in ('append', 'extend', 'insert', 'reverse', 'pop', 'remove', 'sort')
+            and sort and n.lineno > last_sort]
+    reassign = [n for n in walk_no_nested(sf) if isinstance(n, ast.Assign) and dotted(n.targets[0]) == lst and sort and n.lineno > last_sort]
+    ctx.check('C20.M4', not muts and not reassign, mod, (muts + reassign)[0] if muts or reassign else sf, f'{lst} is changed again after sorting', func='save_scenes_image_sync', text='no mutation after sort')
+    per_entry = [n for n in walk_no_nested(sf) if isinstance(n, ast.For) and isinstance(n.target, ast.Name) and n.lineno > last_sort
+                 and any(isinstance(x, ast.Attribute) and x.attr == 'checksum' and dotted(x.value) == n.target.id for st in n.body for x in ast.walk(st))]
+    ok = all(dotted(n.iter) == lst for n in per_entry) and len(per_entry) >= 3
+    ctx.check('C20.M4', ok, mod, table[0], f'table, summaries and data iterate the same sorted list ({len(per_entry)} per-entry loops after the sort, over {sorted({ast.unparse(n.iter) for n in per_entry})})',
+              func='save_scenes_image_sync', text='one list for table, summaries, data')
     ok = "deferred.set_data(('summary', entry.checksum), file.tell())" in ss and "deferred.set_data(('data', entry.checksum), file.tell(), len(data))" in ss and 'data = entry_to_data[entry]' in ss
     ctx.shape('C20.M4', ok, mod, sf, "each entry's summary offset, data offset and data length are set on the slots keyed by that entry", func='save_scenes_image_sync', text='offsets keyed per entry')
     # the pool must give every distinct string its own entry: pool[index(s)] == s requires an injective key
@@ -1179,6 +1240,9 @@ def m5_tables(ctx: Any, prog: Program) -> None:
 
 
 MUTANTS: List[Dict[str, Any]] = [
+    {'id': 'ok_scenes_sort_short_lambda', 'file': 'choreo.py', 'find': "    scene_list.sort(key=lambda entry: entry.checksum)\n", 'replace': "    scene_list.sort(key=lambda e: e.checksum)\n", 'expect': None},
+    {'id': 'scenes_sort_descending', 'file': 'choreo.py', 'find': "    scene_list.sort(key=lambda entry: entry.checksum)\n", 'replace': "    scene_list.sort(key=lambda entry: entry.checksum, reverse=True)\n", 'expect': 'C20.M4'},
+    {'id': 'scenes_sort_by_filename', 'file': 'choreo.py', 'find': "    scene_list.sort(key=lambda entry: entry.checksum)\n", 'replace': "    scene_list.sort(key=lambda entry: entry.filename)\n", 'expect': 'C20.M4'},
     {'id': 'cmdseq_ensure_flag_truthiness', 'file': 'cmdseq.py', 'find': "            if cmd.ensure_file is not None:", 'replace': "            if cmd.ensure_file:", 'expect': 'C20.M1'},
     {'id': 'ok_cmdseq_ensure_flag_inverted_arms', 'file': 'cmdseq.py', 'find': "            if cmd.ensure_file is not None:\n                ensure_file = pad_string(cmd.ensure_file, 260)\n                has_ensure_file = 1\n            else:\n                ensure_file = bytes(260)\n                has_ensure_file = 0\n", 'replace': "            if cmd.ensure_file is None:\n                ensure_file = bytes(260)\n                has_ensure_file = 0\n            else:\n                ensure_file = pad_string(cmd.ensure_file, 260)\n                has_ensure_file = 1\n", 'expect': None},
     {'id': 'abs_tag_max_byte', 'file': 'choreo.py', 'find': "    _MAX: ClassVar[int] = 65535", 'replace': "    _MAX: ClassVar[int] = 255", 'expect': 'C20.M1'},
